@@ -2,6 +2,7 @@ import SkgVerif.Lemmas.Kriging
 import SkgVerif.Lemmas.Pairs
 import SkgVerif.Lemmas.CondIdx
 import SkgVerif.Gen.Source
+import SkgVerif.Props.Transcribed.C20
 /-!
 # C20 — metric spaces hold true distances; neighbour search = nearest N within range
 -/
